@@ -21,12 +21,12 @@ PROPS = {
         "level": "exploration",
         "workers": 16,
         "engine": "E2-sim",
-        "technique": "property-based stress of the real handle_changes loop with generated configurations, arrival sequences and an overload window (write connection held by the harness); oracle: containment of every offered changeset after <=4 re-offer rounds + set model of the advertised state + visibility shadow",
+        "technique": "property-based stress of the real handle_changes loop with generated configurations, arrival sequences and an overload window (write connection held by the harness); oracle: containment of every offered changeset after at most 3 paced re-offer rounds (idleness of the ingest loop is observed through a marker changeset and a low-priority write request) + set model of the advertised state + visibility shadow",
         "level_text": ("the receiver runs the real handle_changes (feature-gated re-export) on its real ingest channel with generated processing_queue_len 1-6, apply_queue_len 1-4, changes_channel_len 1-8; "
                        "changesets of 1-3 origin actors (complete, partial seq-range chunks cut by the real handle_need, Empty, exact duplicates) arrive while the harness holds the write connection for a "
-                       "generated window, so jobs block, the queue overflows and the oldest entries are shed; afterwards everything not yet contained is offered again (as sync does), at most 4 rounds, with "
-                       "positive polling; then every offered changeset must be contained, the advertised state must equal the set model of everything offered and the tables the visibility shadow"),
-        "level_note": "the interleaving of the up to five concurrent process_multiple_changes jobs is scheduler-owned (sampled, not enumerated); waiting is positive polling (stable for 400 ms), a slow machine can only cost extra re-offer rounds",
+                       "generated window, so jobs block, the queue overflows and the oldest entries are shed; afterwards everything not yet contained is offered again (as sync does), at most 3 paced rounds, each followed by an observed-idle wait; "
+                       " then every offered changeset must be contained, the advertised state must equal the set model of everything offered and the tables the visibility shadow"),
+        "level_note": "the interleaving of the up to five concurrent process_multiple_changes jobs is scheduler-owned (sampled, not enumerated); waiting is observation of idleness (marker through the same FIFO channel + low-priority write request), not a time window; sub-campaign few-keys keeps the number of (actor, version) keys within processing_queue_len so the seen cache is never flushed wholesale",
         "rule": ("generated: 1-3 origins with 1-5 transactions, 4-23 extra partial chunks (1-2 seq ranges each) cut by the origins, 10-40 (quick) / 10-60 (thorough) arrivals picked from the pool with "
                  "duplicates, overload window [from, from+len). Non-trivial: a re-offer round was needed, or the queue overflowed while traffic of >=2 actors arrived in the overload window. Distinct = hash of the case."),
         "assumptions": ["offers that hit a full ingest channel for 200 ms while the node is blocked count as lost (a timed-out peer)", "the apply loop is played by the harness (same call)"],
